@@ -5,7 +5,7 @@ sys.path.insert(0, "/verif")
 from asv import mutants
 from asv.__main__ import PROPS, load_rule_module
 from asv.loader import AnalysisError, Program
-from asv.report import Ctx, load_known, match_known
+from asv.report import Ctx, Undischarged, load_known, match_known
 import asv.rules.common as common
 
 names = list(mutants.TWINS) if sys.argv[1] == "all" else [sys.argv[1]]
@@ -22,6 +22,8 @@ for name in names:
             ctx = Ctx(p, prog, "quick")
             try:
                 load_rule_module(p).run(ctx)
+            except Undischarged:
+                pass
             except AnalysisError as e:
                 print(name, p, "ANALYSIS-ERROR", str(e)[:200]); bad += 1; continue
             except Exception as e:
